@@ -245,7 +245,7 @@ func cmdCheck(args []string) int {
 	// in proportion to the load, so that an obligation that needs two CPU seconds is not reported as failed
 	if lf := loadFactor(); lf > 1 {
 		quickSec = int(float64(quickSec) * lf)
-		fullSec = int(float64(fullSec) * lf)
+		fullSec = int(float64(fullSec) * (1 + (lf-1)/2))
 	}
 	all := false
 	if *tier == "thorough" {
@@ -632,7 +632,7 @@ func writeEvidence(id, tier string, seed int, def *PropDef, results []*FuncResul
 
 var _ = sort.Strings
 
-// loadFactor: 1-minute load average divided by the number of CPUs, between 1 and 6.
+// loadFactor: 1-minute load average divided by the number of CPUs, between 1 and 3.
 func loadFactor() float64 {
 	data, err := os.ReadFile("/proc/loadavg")
 	if err != nil {
@@ -646,8 +646,8 @@ func loadFactor() float64 {
 	if f < 1 {
 		return 1
 	}
-	if f > 6 {
-		return 6
+	if f > 3 {
+		return 3
 	}
 	return f
 }
